@@ -368,6 +368,16 @@ class MixedKernelMonitor:
                           case={"op": name, "wires": list(op.wires), "state_batched": sb, "interface": iface, "spec": self.case}, mech=mech)
 
 
+def preprocessed_ops(qp, dev, ops, ms):
+    """Operators the device really applies (after its own decomposition) — for tagging only."""
+    try:
+        program, _ = dev.preprocess()
+        tapes, _ = program([qp.tape.QuantumScript(ops, ms)])
+        return [o for t in tapes for o in t.operations]
+    except Exception:  # noqa: BLE001
+        return list(ops)
+
+
 def single_precision_eigvals(qp, op):
     """Mechanism classifier (tagging only): operator with 64-bit torch parameters whose eigvals() come back as complex64."""
     try:
@@ -443,13 +453,13 @@ def part_circuits(ctx, qp, D):
 
         memo = {}
 
-        def retag(mech, spec=spec, info=info, memo=memo, iface=iface, ops=ops):
+        def retag(mech, spec=spec, info=info, memo=memo, iface=iface, ops=ops, ms=ms, dev=dev):
             if "m" not in memo:
                 memo["m"] = None
                 unit = {**spec, "ops": [s for s in spec["ops"] if s["t"] not in ("chan", "qchan")]}
                 if spec["batch"] == 1:
                     memo["m"] = "batch1:default.mixed"
-                elif iface == "torch" and any(single_precision_eigvals(qp, o) for o in ops) and (mech.startswith("unphysical") or mech.startswith("result")):
+                elif iface == "torch" and (mech.startswith("unphysical") or mech.startswith("result")) and any(single_precision_eigvals(qp, o) for o in preprocessed_ops(qp, dev, ops, ms)):
                     memo["m"] = "precision:torch-complex64-eigvals"
                 elif C26.stale_batch_ops(qp, unit):
                     memo["m"] = "batch-size-none:symbolic-op"
